@@ -1,4 +1,5 @@
 import DarkluaModel.Shared.VisitorSound.ExactFam
+import DarkluaModel.Shared.VisitorSound.Closure
 import DarkluaModel.Rules.EmptyDo
 /-!
 # Lifting local soundness of hooks to whole visitor passes
@@ -9,6 +10,13 @@ import DarkluaModel.Rules.EmptyDo
   `HooksNoFn P` (hooks do not introduce function expressions) ⇒ `visit_exact`: on function-free
   blocks a pass yields an exactly equivalent (`Sem.EqB`), function-free block;
   corollaries `runDefault_exact`, `runScoped_exact`; worked instance `EmptyDo.apply_exact`.
+
+* Stage 2 (this file): no restriction on functions. `HooksExact P` ⇒ `visit_R`: the pass output is
+  `R`-related to the input (`R` = congruence closure of exact steps, also under function bodies,
+  `VisitorSound/Rel.lean`), and by the fundamental theorem of `R` (`Sem.fund`, `Sem.runProgram_rel`)
+  ⇒ `visit_refines`: equal observable outcome (`Sem.runProgram`: returned / raised canonical
+  values and the trace of external calls) for every oracle, call level and extern list.
+  Corollaries `runDefault_refines`, `runScoped_refines`; instance `EmptyDo.apply_refines`.
 
 Recipe for a rule builder: see the `EmptyDo` section at the end.
 -/
@@ -110,6 +118,56 @@ theorem Sem.EqB.runProgram_eq {b b' : Block} (h : EqB b b') {N : NumOps} (ρ : E
   unfold Sem.runProgram Sem.runChunk
   rw [h N]
 
+/-! ## Stage 2: programs with functions — observational equality -/
+
+theorem HooksExact.toClosureRel (H : HooksExact P) : HooksRel closureFam P where
+  expr := fun e s => .stepE (H.expr e s) (R.reflE _)
+  pref := fun e s => .stepE (H.pref e s) (R.reflE _)
+  target := fun e s => .stepT (H.target e s) (R.reflT _)
+  node := fun e s => ⟨.stepE (H.node e s).1 (R.reflE _), .stepT (H.node e s).2 (R.reflT _)⟩
+  afterNode := fun e s => ⟨.stepE (H.afterNode e s).1 (R.reflE _), .stepT (H.afterNode e s).2 (R.reflT _)⟩
+  stmt := fun e s => .stepS (H.stmt e s) (R.reflS _)
+  stmtNode := fun e s => .stepS (H.stmtNode e s) (R.reflS _)
+  afterStmtNode := fun e s => .stepS (H.afterStmtNode e s) (R.reflS _)
+  last := fun e s => .stepL (H.last e s) (R.reflL _)
+  block := fun e s => .stepB (H.block e s) (R.reflB _)
+  afterBlock := fun e s => .stepB (H.afterBlock e s) (R.reflB _)
+  scopeB := fun b c s => .stepB (H.scopeB b c s) (R.reflB _)
+  scopeC := fun b c s => .stepE (H.scopeC b c s) (R.reflE _)
+  insert := H.insert
+  insertLocalName := H.insertLocalName
+  insertLocalVal := fun n v s => .stepE (H.insertLocalVal n v s) (R.reflE _)
+  insertLocalFn := H.insertLocalFn
+
+/-- a pass with `R`-respecting hooks (in particular exactly sound hooks) maps a block to an
+`R`-related block — any block, functions included -/
+theorem Visitor.visit_R_of_rel (H : HooksRel closureFam P) (sc : Bool) (fuel : Nat) (pushes : Bool)
+    (b : Block) (s : σ) : R (.b b) (.b (Visitor.visitBlock P sc fuel pushes b s).1) :=
+  Visitor.visit_rel (C := closureFam) H sc fuel pushes b s
+
+theorem Visitor.visit_R (H : HooksExact P) (sc : Bool) (fuel : Nat) (pushes : Bool) (b : Block) (s : σ) :
+    R (.b b) (.b (Visitor.visitBlock P sc fuel pushes b s).1) :=
+  Visitor.visit_R_of_rel H.toClosureRel sc fuel pushes b s
+
+/-- **Stage 2 lifting theorem.** If every hook of `P` is exactly meaning-preserving, then running
+the visited program is observationally the same as running the original: same returned (or raised)
+canonical values and same trace of external calls, for every number model, oracle, call level
+and extern list — although the closures created along the way hold different (rewritten) bodies. -/
+theorem Visitor.visit_refines (H : HooksExact P) (sc : Bool) (fuel : Nat) (pushes : Bool) (b : Block) (s : σ)
+    {N : NumOps} (ρ : ExtOracle N) (n : Nat) (externs : List String) :
+    runProgram ρ n externs (Visitor.visitBlock P sc fuel pushes b s).1 = runProgram ρ n externs b :=
+  runProgram_rel ρ n externs (Visitor.visit_R H sc fuel pushes b s)
+
+theorem Visitor.runDefault_refines (H : HooksExact P) (b : Block) (s : σ)
+    {N : NumOps} (ρ : ExtOracle N) (n : Nat) (externs : List String) :
+    runProgram ρ n externs (Visitor.runDefault P b s).1 = runProgram ρ n externs b :=
+  Visitor.visit_refines H false _ true b s ρ n externs
+
+theorem Visitor.runScoped_refines (H : HooksExact P) (b : Block) (s : σ)
+    {N : NumOps} (ρ : ExtOracle N) (n : Nat) (externs : List String) :
+    runProgram ρ n externs (Visitor.runScoped P b s).1 = runProgram ρ n externs b :=
+  Visitor.visit_refines H true _ true b s ρ n externs
+
 /-! ## Worked instance: `remove_empty_do`
 
 Recipe: (1) `HooksExact processor` — give the local soundness lemma for each overridden hook,
@@ -165,6 +223,38 @@ theorem apply_exact (b : Block) (hb : b.noFn = true) : EqB b (apply b) ∧ (appl
 theorem apply_runProgram (b : Block) (hb : b.noFn = true) {N : NumOps} (ρ : ExtOracle N) (n : Nat)
     (externs : List String) : runProgram ρ n externs (apply b) = runProgram ρ n externs b :=
   (apply_exact b hb).1.runProgram_eq ρ n externs
+
+/-! stage 2: no restriction on the program -/
+
+theorem pass_R (b : Block) : R (.b b) (.b (pass b).1) := Visitor.visit_R hooksExact false _ true b false
+
+theorem loop_R : ∀ (n : Nat) (b : Block), R (.b b) (.b (loop n b))
+  | 0, b => R.reflB b
+  | n + 1, b => by
+    simp only [loop]
+    split
+    · exact .transB (pass_R b) (loop_R n _)
+    · exact pass_R b
+
+/-- **whole-rule theorem**: for EVERY program, `remove_empty_do` preserves the observable outcome -/
+theorem apply_refines (b : Block) {N : NumOps} (ρ : ExtOracle N) (n : Nat) (externs : List String) :
+    runProgram ρ n externs (apply b) = runProgram ρ n externs b :=
+  runProgram_rel ρ n externs (loop_R _ b)
+
+/-- non-vacuity (stage 2): `local function g() do end emit(1) end; g()` — the empty `do` sits inside a
+function body, so the closure created by the rewritten program differs from the original's -/
+def sampleFn : Block :=
+  .mk [.localFn .loc "g" (.mk [] false none none [] []
+         (.mk [.doBlock (.mk [] none), .callStmt (.call (.var "emit") none .tuple [.num 1])] none)),
+       .callStmt (.call (.var "g") none .tuple [])] none
+
+example : sampleFn.noFn = false := rfl
+example : apply sampleFn =
+    .mk [.localFn .loc "g" (.mk [] false none none [] []
+           (.mk [.callStmt (.call (.var "emit") none .tuple [.num 1])] none)),
+         .callStmt (.call (.var "g") none .tuple [])] none := rfl
+example {N : NumOps} (ρ : ExtOracle N) (n : Nat) :
+    runProgram ρ n ["emit"] (apply sampleFn) = runProgram ρ n ["emit"] sampleFn := apply_refines sampleFn ρ n _
 
 /-- non-vacuity: `do end; while f() do do do end end emit(1) end; return x` — function-free, and the
 rule really rewrites it (nested empty `do` blocks need two passes) -/
